@@ -106,6 +106,13 @@ Reset(e) ==
     /\ U' = {<<1, "iggy", TRUE>>}
     /\ dead' = FALSE /\ bad' = {}
 
+(* two clients at once (specs/IggyCatalogueMT.tla): both commands were acknowledged; the restart must succeed and reproduce *)
+(* the catalogue, whatever order the two entries reached the journal in                                                    *)
+Race(e) ==
+    /\ UNCHANGED vars /\ dead' = TRUE
+    /\ bad' = IF e.acks[1] = "ok" /\ e.acks[2] = "ok" /\ (e.restart # "ok" \/ ~e.same)
+              THEN {<<"C05.concurrent_history_not_reproduced", e.pair, e.forced, e.restart>>} ELSE {}
+
 Fatal(e) == UNCHANGED vars /\ dead' = TRUE /\ bad' = {<<"X.fatal", e.ev, e.fatal>>}
 Skip == UNCHANGED <<vars, dead>> /\ bad' = {}
 
@@ -122,6 +129,7 @@ TraceNext ==
     /\ LET e == Rec[l] IN
        IF e.ev = "reset" THEN Reset(e)
        ELSE IF dead THEN Skip
+       ELSE IF e.ev = "race" THEN Race(e)
        ELSE IF "fatal" \in DOMAIN e THEN Fatal(e)
        ELSE Step(e)
 
